@@ -130,12 +130,19 @@ def client_model(rnd, version, variant):
         d = json.loads(json.dumps(svcs[0]))
         d["key"] = rbytes(rnd, 32).hex()
         d["end"] = be32(rnd.getrandbits(31))
+        if rnd.random() < 0.7:                              # a re-issued ticket: other bytes under the same name
+            d["ticket"] = der_ticket(rnd, d["server"]["realm"], d["server"]["comps"])
         creds.append(d)
         if rnd.random() < 0.5:
             t2 = json.loads(json.dumps(tgt))
             t2["key"] = rbytes(rnd, 16).hex()
             t2["auth"] = be32(rnd.getrandbits(31))
             creds.append(t2)
+    elif variant == "dup-tgt":
+        # a renewed TGT appended after the old one: every field differs, so each (ticket, key, times) triple is recognisable
+        for _ in range(rnd.choice([1, 1, 2])):
+            t2 = tkt_cred([b"krbtgt", realm])
+            creds.insert(rnd.randrange(len(creds) + 1), t2)
     elif variant == "opaque" and svcs:
         svcs[-1]["ticket"] = raw_ticket(rbytes(rnd, 40))
     elif variant == "cross":
@@ -177,7 +184,7 @@ def gen_models(rnd, scale):
             srv = rprinc(rnd, rnd.choice([1, 2, 3]))
             creds = [rcred(rnd, default, server=rnd.choice([srv, dict(srv, realm=rname(rnd, True).hex()), rprinc(rnd)])) for _ in range(rnd.choice([2, 3, 4, 6]))]
             ms.append(model("same-server", version, rheader(rnd, version, "known"), default, creds))
-    variants = ["plain", "plain", "tgt-last", "no-tgt", "cross-tgt", "dup-spn", "opaque", "cross"]
+    variants = ["plain", "plain", "tgt-last", "no-tgt", "cross-tgt", "dup-spn", "dup-tgt", "opaque", "cross"]
     for rep in range(2 * scale):
         for version in (1, 2, 3, 4):
             for v in variants:
@@ -404,7 +411,7 @@ def main(tier, only_models=None):
             run.sample({"class": x["model"]["class"], "version": x["model"]["version"], "image_bytes": len(x["image"]) // 2, "credentials": len(x["creds"]),
                         "lookups": len(x["lookups"]), "entries": x["entries"], "client_err": x["client"]["errmsg"], "client_cache": [e["mapkey"] for e in x["client"]["cache"]]})
         run.assumptions += ["version 1 and 2 files are rendered in the byte order of this host (%s endian); the other order cannot be read by definition" % sys.byteorder,
-                            "16-bit types may be reported signed or unsigned, 32-bit times as signed or unsigned seconds, the name type of version 1 principals is free",
+                            "16-bit types may be reported signed or unsigned, 32-bit times are signed seconds (as the property quantifies), the name type of version 1 principals is free",
                             "which of several credentials for one server GetEntry / the client cache keeps is unspecified (any of them is accepted)",
                             "NewFromCCache is constrained only for caches with a TGT for the default realm whose listed credentials carry DER tickets named like their server principal",
                             "the header of a version 4 file is not observable through the API; only its effect on everything after it is checked",
